@@ -39,7 +39,9 @@ def run_one(path):
             os.remove(meta["facts_file"])
         except OSError:
             pass
-        return dict(name=os.path.basename(path), status="SILENT" if not alarms else "ALARM", alarms=alarms, s=round(time.time() - t0, 1))
+        exp = ", ".join("%s->%s x%d" % (e["helper"].split("::")[-1], e["into"].split("::")[-1], e["sites"]) for e in meta.get("helpers_expanded", []))
+        return dict(name=os.path.basename(path), status="SILENT" if not alarms else "ALARM", alarms=alarms, s=round(time.time() - t0, 1),
+                    why=("expanded: " + exp) if exp else "")
     finally:
         shutil.rmtree(tmp, ignore_errors=True)
 
